@@ -165,6 +165,12 @@ pub struct GProg {
     pub metadata: Vec<(IntE, MetaE)>,
     pub references: Vec<(String, RefE)>,
     pub collateral: Option<GCollateral>,
+    /// cardano::withdrawal blocks: reward account (an address whose delegation part is taken), amount
+    #[serde(default)]
+    pub withdrawals: Vec<(AddrE, IntE)>,
+    /// cardano::treasury_donation { coin }
+    #[serde(default)]
+    pub donation: Option<IntE>,
     /// block order inside the tx body (indices into a fixed list of block kinds), for "disordered" programs
     pub body_rotation: usize,
 }
@@ -556,6 +562,24 @@ pub fn tokens(prog: &GProg, trailing: bool) -> Vec<String> {
             p.tok(",");
         }
         p.tok("}");
+        p.nl();
+        blocks.push(take(&mut p, m));
+    }
+    for (from, amount) in &prog.withdrawals {
+        let m = p.t.len();
+        p.toks(&["cardano", "::", "withdrawal", "{", "from", ":"]);
+        p.addr(from, prog);
+        p.toks(&[",", "amount", ":"]);
+        p.int(amount);
+        p.toks(&[",", "redeemer", ":", "()", ",", "}"]);
+        p.nl();
+        blocks.push(take(&mut p, m));
+    }
+    if let Some(coin) = &prog.donation {
+        let m = p.t.len();
+        p.toks(&["cardano", "::", "treasury_donation", "{", "coin", ":"]);
+        p.int(coin);
+        p.toks(&[",", "}"]);
         p.nl();
         blocks.push(take(&mut p, m));
     }
@@ -1230,6 +1254,32 @@ pub fn generate(c: &mut Chooser) -> Scenario {
         0 => {}
         1 => prog.collateral = Some(GCollateral { from: None, min_amount: None, r#ref: Some(RefE::Lit(vec![0xC0; 32], 0)) }),
         _ => prog.collateral = Some(GCollateral { from: Some(AddrE::Party(sender.to_string())), min_amount: Some(AssetE::Ada(IntE::Lit(5_000_000))), r#ref: None }),
+    }
+
+    // chain-specific directives that move value: a withdrawal adds to what is consumed, a donation to what is spent
+    match g.pick("directive", &["none", "withdrawal", "withdrawal-n", "donation", "donation-n", "withdrawal+donation"]) {
+        0 => {}
+        k => {
+            let last = prog.outputs.len() - 1;
+            let w = match k {
+                1 | 5 => Some(IntE::Lit(250_000)),
+                2 => Some(ensure_n(&mut prog)),
+                _ => None,
+            };
+            let d = match k {
+                3 | 5 => Some(IntE::Lit(70_000)),
+                4 => Some(ensure_n(&mut prog)),
+                _ => None,
+            };
+            if let Some(w) = w {
+                prog.withdrawals.push((AddrE::Party(sender.to_string()), w.clone()));
+                prog.outputs[last].amount = AssetE::Add(Box::new(prog.outputs[last].amount.clone()), Box::new(AssetE::Ada(w)));
+            }
+            if let Some(d) = d {
+                prog.donation = Some(d.clone());
+                prog.outputs[last].amount = AssetE::Sub(Box::new(prog.outputs[last].amount.clone()), Box::new(AssetE::Ada(d)));
+            }
+        }
     }
 
     // extra unused definitions and block order
